@@ -28,7 +28,10 @@ import (
 	"encoding/json"
 	"errors"
 	"fmt"
+	"math"
+	"math/big"
 	"os"
+	"path/filepath"
 	"sort"
 	"strings"
 	"sync"
@@ -38,6 +41,7 @@ import (
 
 	"github.com/cbeuw/Cloak/internal/client"
 	"github.com/cbeuw/Cloak/internal/common"
+	"github.com/cbeuw/Cloak/internal/ecdh"
 	"github.com/cbeuw/Cloak/internal/server/usermanager"
 	"github.com/cbeuw/Cloak/internal/verifhook"
 	kit "github.com/cbeuw/Cloak/internal/verifkit"
@@ -64,16 +68,27 @@ type c07Table struct {
 	w        int
 	maxT     int
 	untamped []*c06Case
+	confCases []*c06Case   // server-configuration x probe-UID cases
+	farOffs   map[int]bool // stamp offsets (ticks) beyond the edge classes
+}
+
+// c07KeyOf: the abstract case a table line stands for.
+func c07KeyOf(c *c06Case) string {
+	k := c07KeyC(c.Tr, c.Tampers, c.Off, c.UState, c.Served, c.Sid, c.RightKey, c.Cache)
+	if c.Probe != "" && c.Probe != "std" {
+		k += fmt.Sprintf("|probe-%s|admin-%v|nb-%d", c.Probe, c.Admin, c.NB)
+	}
+	return k
 }
 
 func c07LoadTable(path string) (*c07Table, error) {
-	tb := &c07Table{m: map[string]*c06Case{}}
+	tb := &c07Table{m: map[string]*c06Case{}, farOffs: map[int]bool{}}
 	err := kit.ReadLines(path, func(line []byte) error {
 		var c c06Case
 		if err := json.Unmarshal(line, &c); err != nil {
 			return err
 		}
-		k := c07KeyC(c.Tr, c.Tampers, c.Off, c.UState, c.Served, c.Sid, c.RightKey, c.Cache)
+		k := c07KeyOf(&c)
 		if old, ok := tb.m[k]; ok && (old.Verdict != c.Verdict || old.API != c.API) {
 			return fmt.Errorf("the table is not a function of the abstract case: %s", k)
 		}
@@ -82,8 +97,16 @@ func c07LoadTable(path string) (*c07Table, error) {
 		if len(c.Tampers) > tb.maxT {
 			tb.maxT = len(c.Tampers)
 		}
-		if len(c.Tampers) == 0 && (c.Cache == "" || c.Cache == "none") {
+		std := c.Probe == "" || c.Probe == "std"
+		near := c.Off >= -c.W-1 && c.Off <= c.W+1
+		if len(c.Tampers) == 0 && (c.Cache == "" || c.Cache == "none") && std && near {
 			tb.untamped = append(tb.untamped, &c)
+		}
+		if !std {
+			tb.confCases = append(tb.confCases, &c)
+		}
+		if !near {
+			tb.farOffs[c.Off] = true
 		}
 		return nil
 	})
@@ -110,12 +133,16 @@ func c07Reason(c *c06Case) string {
 		return "wrong-server-key"
 	case a == c.W:
 		return "window-edge"
+	case a > c.W+1:
+		return "window-far" // days ... centuries away, or a stamp like MaxInt64
 	case a > c.W:
 		return "window"
 	case c.UState == "admin" && c.Sid == "zero":
 		return "none"
 	case !c.Served:
 		return "method-unserved"
+	case !Authorised07(c.UState) && c.Probe != "" && c.Probe != "std":
+		return fmt.Sprintf("uid-not-configured:%s:%s", c.Probe, map[bool]string{true: "admin-configured", false: "no-admin"}[c.Admin])
 	case !Authorised07(c.UState):
 		return "user-" + c.UState
 	}
@@ -535,11 +562,15 @@ func (r *c06Rig) c07MakeBase(cs *c06Case, sig string, k int, rng *kit.Rng) (*c07
 	c0.UID = []string{"u1", "u2"}[k%2] // two seeded users per user state (e.g. no upload credit / no download credit)
 	conc := r.concretise(&c0, k, rng)
 	conc.OffNs = 0
+	conc.Stamp = r.nextStamp
 	pkt, auth, err := r.captureFirstPacket(&c0, conc)
 	if err != nil {
 		return nil, err
 	}
 	b := &c07Base{cs: &c0, conc: conc, pkt: pkt, auth: auth, stamp: time.Unix(0, conc.ClientNs).UTC().Unix(), sealed: c07SealedOf(auth)}
+	if conc.Stamp != nil {
+		b.stamp = *conc.Stamp
+	}
 	if pkt[0] == 0x16 {
 		b.lay, err = c07LocateTLS(pkt)
 	} else {
@@ -552,7 +583,7 @@ func (r *c06Rig) c07MakeBase(cs *c06Case, sig string, k int, rng *kit.Rng) (*c07
 }
 
 func (r *c06Rig) setClock(stamp int64, off time.Duration) {
-	r.now.Store(time.Unix(stamp, 0).Add(off).UnixNano())
+	r.setNow(time.Unix(stamp, 0).Add(off))
 }
 
 type c07Env struct {
@@ -655,7 +686,12 @@ func (r *c06Rig) c07Forged(env *c07Env, b *c07Base, which int, top bool, off int
 
 // c07Packet presents pkt (derived from base b, touching `classes`) and judges the observation against exp.
 func (r *c06Rig) c07Packet(env *c07Env, b *c07Base, pkt []byte, classes []string, key string, exp *c06Case, e any, off int, offNs time.Duration) {
-	r.setClock(b.stamp, offNs)
+	if r.clockOverride != nil {
+		r.setNow(*r.clockOverride)
+	} else {
+		r.setClock(b.stamp, offNs)
+	}
+	srvNow := r.serverNow()
 	obs := r.present(pkt, b.sealed.UID, b.sealed.Sid)
 	var ci ClientInfo
 	authErr := errors.New("not a first packet")
@@ -702,7 +738,7 @@ func (r *c06Rig) c07Packet(env *c07Env, b *c07Base, pkt []byte, classes []string
 	if v.Key != "" {
 		env.res.Violate(v.Key, v.What, map[string]any{
 			"kind": "packet", "abstract": exp, "classes": classes, "edit": e, "packet_hex": hex.EncodeToString(pkt),
-			"server_clock_minus_stamp_ns": int64(offNs), "stamp": b.stamp, "observed": obs, "auth_error": fmt.Sprint(authErr),
+			"server_clock_minus_stamp_ns": int64(offNs), "stamp": b.stamp, "server_clock_unix_s": srvNow.Unix(), "server_clock_ns": srvNow.Nanosecond(), "observed": obs, "auth_error": fmt.Sprint(authErr),
 			"static_private_key_hex": hex.EncodeToString(r.pv.(*[32]byte)[:]), "uids": r.hexUIDs(), "user": b.conc.Label, "sid": b.sealed.Sid,
 		})
 	}
@@ -846,7 +882,7 @@ func (r *c06Rig) c07Client(env *c07Env, cs *c06Case, c c06Conc) {
 		r.purgeUsers()
 	}
 	redirected := r.takeRedirect() != nil
-	key := c07Key(cs.Tr, nil, cs.Off, cs.UState, cs.Served, cs.Sid, cs.RightKey)
+	key := c07KeyOf(cs)
 	res.Count("client|"+key, cs.Verdict != "must-accept")
 	res.Stat("clients:"+cs.Verdict, 1)
 	outcome := "refused"
@@ -1124,6 +1160,230 @@ func (r *c06Rig) c07History(env *c07Env, tr, sig, after, cache string, n int, rn
 	_ = auth2
 }
 
+// ------------------------------------------------------------------------------------ part D: far-away stamps
+//
+// The 8 wire bytes carry any int64 number of seconds and the server clock is whatever it is.  The statement's
+// window is decided here in exact integer arithmetic (big.Int, nanoseconds): inside <=> |stamp - now| < tolerance.
+// The distance is mapped to the spec's offset class (ticks of tolerance/2; the largest class magnitude not above it)
+// and the table gives the verdict; the two must agree or the run is inconclusive.
+
+var c07FarMags = []int64{3, 960, 350640, 100 * 350640, 292 * 350640, 293 * 350640, 300 * 350640, 584 * 350640, 2000000000}
+
+// c07ExactClass returns (inside the strict window, offset class in ticks) for a stamp and a server clock.
+func c07ExactClass(stamp int64, now time.Time) (bool, int) {
+	d := new(big.Int).Mul(big.NewInt(stamp), big.NewInt(1e9))
+	n := new(big.Int).Mul(big.NewInt(now.Unix()), big.NewInt(1e9))
+	n.Add(n, big.NewInt(int64(now.Nanosecond())))
+	d.Sub(d, n) // stamp - now, ns
+	abs := new(big.Int).Abs(d)
+	if abs.Cmp(big.NewInt(int64(timestampTolerance))) < 0 {
+		return true, 0
+	}
+	ticks := new(big.Int).Div(abs, big.NewInt(int64(timestampTolerance/2)))
+	class := int64(2)
+	for _, m := range c07FarMags {
+		if ticks.Cmp(big.NewInt(m)) >= 0 {
+			class = m
+		}
+	}
+	if d.Sign() < 0 {
+		class = -class
+	}
+	return false, int(class)
+}
+
+// c07FarOne presents base b (sealed stamp b.stamp) to a server whose clock is `now`.
+func (r *c06Rig) c07FarOne(env *c07Env, b *c07Base, now time.Time, what string) {
+	inside, off := c07ExactClass(b.stamp, now)
+	if inside {
+		env.res.Stat("far_cases_inside_window_skipped", 1)
+		return
+	}
+	key := c07Key(b.cs.Tr, nil, off, b.cs.UState, b.cs.Served, b.cs.Sid, b.cs.RightKey)
+	exp := env.tb.m[key]
+	if exp == nil {
+		env.res.Note("no abstract case for %s (%s)", key, what)
+		env.res.Stat("missing_abstract_case", 1)
+		return
+	}
+	if exp.Verdict != "must-redirect" {
+		env.res.Note("exact arithmetic puts stamp %d outside the window of %v, the table says %s for %s", b.stamp, now, exp.Verdict, key)
+		env.res.Stat("harness_errors", 1)
+		return
+	}
+	r.clockOverride = &now
+	defer func() { r.clockOverride = nil }()
+	env.res.Stat("far_stamp_presentations", 1)
+	r.c07Packet(env, b, b.pkt, nil, key, exp, what, off, 0)
+}
+
+func (r *c06Rig) c07FarTimes(env *c07Env, cs *c06Case, sig string, k int, thorough bool, rng *kit.Rng) {
+	res := env.res
+	year := int64(31557600)
+	// D1: an ordinary stamp, the server clock days ... centuries away in both directions (+ the two sides of 2^63 ns)
+	b, err := r.c07MakeBase(cs, sig, k, rng)
+	if err != nil {
+		res.Note("far base: %v", err)
+		res.Stat("harness_errors", 1)
+		return
+	}
+	res.Stat("base_packets", 1)
+	dists := []int64{86400, year, 100 * year, 292 * year, 293 * year, 300 * year, 584 * year, 9223372036, 9223372037, 2 * 86400 * 365}
+	for _, dsec := range dists {
+		for _, sign := range []int64{1, -1} {
+			now := time.Unix(b.stamp+sign*dsec, int64(rng.Intn(1000))*1e6)
+			r.c07FarOne(env, b, now, fmt.Sprintf("server clock = stamp %+d s", sign*dsec))
+		}
+	}
+	// D2: extreme and random stamps under an ordinary server clock (and under a clock a century off)
+	stamps := []int64{0, 1, -1, math.MaxInt64, math.MinInt64, math.MaxInt64 - 1, math.MinInt64 + 1, 1 << 62, -(1 << 62), 1 << 40,
+		r.base.Unix() + (1 << 33), r.base.Unix() + 9223372037, r.base.Unix() - 9223372037, math.MaxInt32, math.MaxUint32}
+	nr := 4
+	if thorough {
+		nr = 40
+	}
+	for i := 0; i < nr; i++ {
+		stamps = append(stamps, int64(rng.Uint64()))
+	}
+	for i, st := range stamps {
+		st := st
+		r.nextStamp = &st
+		b2, err := r.c07MakeBase(cs, sig, k+i, rng)
+		r.nextStamp = nil
+		if err != nil {
+			res.Note("far base (stamp %d): %v", st, err)
+			res.Stat("harness_errors", 1)
+			continue
+		}
+		res.Stat("base_packets", 1)
+		r.c07FarOne(env, b2, r.base.Add(time.Duration(rng.Intn(1000))*time.Millisecond), fmt.Sprintf("stamp %d, ordinary server clock", st))
+		if i%3 == 0 {
+			r.c07FarOne(env, b2, time.Unix(r.base.Unix()-100*year, 0), fmt.Sprintf("stamp %d, server clock a century earlier", st))
+		}
+	}
+}
+
+// ------------------------------------------------------------------------------------ part E: server configurations
+//
+// The server is built through the real configuration path (a JSON file -> ParseConfig -> InitState) with and without
+// an AdminUID and with 0 / 1 / 3 BypassUID entries; real clients name the probe UIDs.  Authorised without a
+// database is exactly the configured set.
+
+func c07NewConfRig(id int, rng *kit.Rng, dir string, admin bool, nb int) (*c06Rig, error) {
+	r := &c06Rig{id: id, vn: kit.NewVNet(), uids: map[string][]byte{}, redirCh: make(chan *c06RedirRec, 256)}
+	pv, pub, err := ecdh.GenerateKey(rand16{rng})
+	if err != nil {
+		return nil, err
+	}
+	r.pv, r.pub, r.pubRaw = pv, pub, append([]byte{}, ecdh.Marshal(pub)...)
+	r.wrongPb = rng.Bytes(32)
+	r.base = time.Unix(time.Now().Unix(), 0)
+	r.setNow(r.base)
+	world := common.WorldState{Rand: common.RealWorldState.Rand, Now: r.serverNow}
+	var bypass [][]byte
+	for i := 0; i < nb; i++ {
+		u := rng.Bytes(16)
+		u[15] |= 1 // so that the truncated variant differs
+		bypass = append(bypass, u)
+		r.uids[fmt.Sprintf("cfgbypass:%d", i)] = u
+	}
+	cfg := map[string]any{
+		"ProxyBook": map[string][]string{}, "BindAddr": []string{":443"}, "RedirAddr": "127.0.0.1:80",
+		"PrivateKey": pv.(*[32]byte)[:], "DatabasePath": filepath.Join(dir, fmt.Sprintf("conf%d-%v-%d.db", id, admin, nb)),
+	}
+	if nb > 0 || id%2 == 0 {
+		cfg["BypassUID"] = bypass // nb = 0: an empty list or no entry at all
+	}
+	if admin {
+		r.uids["admin"] = rng.Bytes(16)
+		cfg["AdminUID"] = r.uids["admin"]
+	}
+	r.proxy = &c06ProxyDialer{m: map[string]*kit.VListener{}}
+	port := 20000
+	for _, names := range c06Served {
+		for _, name := range names {
+			port++
+			addr := fmt.Sprintf("127.0.0.1:%d", port)
+			cfg["ProxyBook"].(map[string][]string)[name] = []string{"tcp", addr}
+			l := r.vn.Listen()
+			r.proxy.m[addr] = l
+			go c06ProxyLoop(l, name)
+		}
+	}
+	raw, err := json.Marshal(cfg)
+	if err != nil {
+		return nil, err
+	}
+	r.dbPath = cfg["DatabasePath"].(string)
+	os.Remove(r.dbPath)
+	path := r.dbPath + ".json"
+	if err := os.WriteFile(path, raw, 0o600); err != nil {
+		return nil, err
+	}
+	defer os.Remove(path)
+	parsed, err := ParseConfig(path)
+	if err != nil {
+		return nil, fmt.Errorf("ParseConfig: %v", err)
+	}
+	sta, err := InitState(parsed, world)
+	if err != nil {
+		return nil, fmt.Errorf("InitState: %v", err)
+	}
+	r.redirL = r.vn.Listen()
+	sta.RedirDialer = r.redirL
+	sta.ProxyDialer = r.proxy
+	r.sta = sta
+	r.mgr = sta.Panel.Manager
+	// the probe UIDs
+	r.uids["probe:zero"] = make([]byte, 16)
+	r.uids["probe:ones"] = bytes.Repeat([]byte{0xff}, 16)
+	r.uids["probe:random"] = rng.Bytes(16)
+	if nb > 0 {
+		r.uids["probe:bypass"] = bypass[rng.Intn(nb)]
+		b0 := bypass[rng.Intn(nb)]
+		r.uids["probe:variant:0"] = append(append([]byte{}, b0[:15]...), 0)             // truncated, zero-padded
+		r.uids["probe:variant:1"] = append(append([]byte{}, b0[1:]...), byte(rng.Intn(256))) // shifted by one byte
+		r.uids["probe:variant:2"] = append(append([]byte{}, b0[:15]...), b0[15]^0x80)   // last byte differs
+	}
+	if admin {
+		r.uids["probe:admin"] = r.uids["admin"]
+	}
+	go r.redirLoop()
+	return r, nil
+}
+
+// rand16 adapts the harness generator to io.Reader.
+type rand16 struct{ g *kit.Rng }
+
+func (x rand16) Read(p []byte) (int, error) { copy(p, x.g.Bytes(len(p))); return len(p), nil }
+
+func c07ConfCases(env *c07Env, id int, dir string, admin bool, nb int, cases []*c06Case, draws int, rng *kit.Rng) error {
+	r, err := c07NewConfRig(id, rng, dir, admin, nb)
+	if err != nil {
+		return err
+	}
+	defer r.close()
+	sigs := []string{"chrome", "firefox", "safari"}
+	for i, cs := range cases {
+		for k := 0; k < draws; k++ {
+			c1 := *cs
+			c1.Sig = sigs[(i+k)%3]
+			conc := r.concretise(&c1, i*13+k, rng)
+			conc.Label = "probe:" + cs.Probe
+			if cs.Probe == "variant" {
+				conc.Label = fmt.Sprintf("probe:variant:%d", (i+k)%3)
+			}
+			if r.uids[conc.Label] == nil {
+				return fmt.Errorf("no UID for probe %s on configuration admin=%v nb=%d", cs.Probe, admin, nb)
+			}
+			r.c07Client(env, &c1, conc)
+			env.res.Stat("configuration_probes", 1)
+			env.res.Stat(fmt.Sprintf("configuration_probes:admin-%v:nb-%d:%s", admin, nb, cs.Probe), 1)
+		}
+	}
+	return nil
+}
+
 // ------------------------------------------------------------------------------------ the test
 
 func TestVerifC07Replay(t *testing.T) {
@@ -1366,6 +1626,50 @@ func TestVerifC07Replay(t *testing.T) {
 			}
 		}
 	}
+	// ---- part D: stamps days ... centuries away from the server clock, extreme and random 64-bit stamps
+	for ti, ts := range trs {
+		for ui, us := range []string{"bypass", "dbok", "admin"} {
+			if !thorough && (ti+ui)%3 != 0 && !(ts.sig == "chrome" && us == "bypass") {
+				continue
+			}
+			ts, us, k := ts, us, ti*3+ui
+			cs := tb.m[c07Key(ts.tr, nil, 0, us, true, "mid", true)]
+			if cs == nil {
+				t.Fatalf("the table has no valid %s/%s case", ts.tr, us)
+			}
+			jobs <- func(r *c06Rig, rng *kit.Rng) { r.c07FarTimes(env, cs, ts.sig, k, thorough, rng) }
+		}
+	}
+	if len(tb.farOffs) == 0 {
+		t.Fatal("the table has no far-away stamp classes")
+	}
+	// ---- part E: servers built by ParseConfig/InitState with / without AdminUID and 0 / 1 / 3 bypass UIDs x probe UIDs
+	type confKey struct {
+		admin bool
+		nb    int
+	}
+	groups := map[confKey][]*c06Case{}
+	for _, cs := range tb.confCases {
+		groups[confKey{cs.Admin, cs.NB}] = append(groups[confKey{cs.Admin, cs.NB}], cs)
+	}
+	if len(groups) < 6 {
+		t.Fatalf("the table has %d server configurations, expected 6", len(groups))
+	}
+	cdraws := 1
+	if thorough {
+		cdraws = 4
+	}
+	gi := 0
+	for ck, cases := range groups {
+		ck, cases, id := ck, cases, 100+gi
+		gi++
+		sort.Slice(cases, func(i, j int) bool { return c07KeyOf(cases[i]) < c07KeyOf(cases[j]) })
+		jobs <- func(_ *c06Rig, rng *kit.Rng) {
+			if err := c07ConfCases(env, id, dir, ck.admin, ck.nb, cases, cdraws, rng); err != nil {
+				fail("configuration admin=%v nb=%d: %v", ck.admin, ck.nb, err)
+			}
+		}
+	}
 	close(jobs)
 	wg.Wait()
 	res.Stat("abstract_cases", int64(len(tb.m)))
@@ -1388,6 +1692,8 @@ func c07ReplayFile(t *testing.T, path, dir string, tb *c07Table) {
 			Conc     c06Conc           `json:"conc"`
 			Packet   string            `json:"packet_hex"`
 			OffNs    int64             `json:"server_clock_minus_stamp_ns"`
+			SrvSec   *int64            `json:"server_clock_unix_s"`
+			SrvNs    int               `json:"server_clock_ns"`
 			Stamp    int64             `json:"stamp"`
 			Pv       string            `json:"static_private_key_hex"`
 			UIDs     map[string]string `json:"uids"`
@@ -1444,6 +1750,9 @@ func c07ReplayFile(t *testing.T, path, dir string, tb *c07Table) {
 	defer rig.close()
 	pkt, _ := hex.DecodeString(rf.Replay.Packet)
 	rig.setClock(rf.Replay.Stamp, time.Duration(rf.Replay.OffNs))
+	if rf.Replay.SrvSec != nil {
+		rig.setNow(time.Unix(*rf.Replay.SrvSec, int64(rf.Replay.SrvNs)))
+	}
 	uid := rig.uids[rf.Replay.User]
 	obs := rig.present(pkt, uid, rf.Replay.Sid)
 	ci, _, aerr := AuthFirstPacket(c07Complete(pkt), c06TransportOf(pkt), rig.freshCacheState())
